@@ -107,6 +107,13 @@ CLAIMED = {
              "interpreter (history independence); vector/matrix helpers as a table.",
         technique="TLA+ spec (Linalg incl. matrix_pivot transcription, MC_C16) model-checked exhaustively with TLC; spec->code replay",
         design="4 C16"),
+    "C11": dict(
+        text="On data sets with rational consecutive distances TLC computes the exact chord-length / centripetal parameters, the exact "
+             "averaged knot vectors (Eq 9.8, 9.68/9.69) and collocation matrices, and checks Schoenberg-Whitney; the replay runs "
+             "interpolate_curve/surface and approximate_curve/surface and checks degree, sizes, knot vector and the defining conditions "
+             "(sum N_i(u_k) P_i = Q_k; end/corner points; normal equations N^T (N P - Q) = 0) on the returned control points.",
+        technique="TLA+ spec (Fitting, MC_C11) model-checked exhaustively with TLC; spec->code replay with condition checking",
+        design="4 C11"),
 }
 
 PENDING_REASON = "check not built yet (work in progress, see DESIGN.md section 8 build order)"
